@@ -10,7 +10,7 @@ TrBig == [to |-> "r1", amt |-> 9]
 MCTransfers == {TrA, TrB, TrBig}
 \* the trailing conjunct makes TLC report coverage under these names
 A_Register == Register /\ TRUE
-A_Vote == (\E s \in Signer \cup Stranger, tr \in Transfers, ok \in BOOLEAN : Vote(s, tr, ok)) /\ TRUE
+A_Vote == (\E s \in Signer \cup Stranger, tr \in Transfers, ok, late \in BOOLEAN : Vote(s, tr, ok, late)) /\ TRUE
 A_Prune == Prune /\ TRUE
 A_Tick == (\E d \in 1..MaxStep : Tick(d)) /\ TRUE
 MCNext == A_Register \/ A_Vote \/ A_Prune \/ A_Tick
